@@ -716,34 +716,118 @@ func vC18Decode(s string) (labels []string, hand []bool) {
 	return labels, hand
 }
 
-// is the verdict on one of the probes a matter of spelling? an entry that is the probe's
-// name or one of its ancestors, where the entry or the probe's part it is compared with
-// holds a label spelled with an unescaped special byte
-func vC18SpellingClass(m, wild, w []string, probes []string) bool {
-	for _, q := range probes {
-		ql, qh := vC18Decode(q)
-		for _, l := range [][]string{m, wild, w} {
-			for _, e := range l {
-				el, eh := vC18Decode(e)
-				if len(el) == 0 || len(el) > len(ql) {
-					continue
-				}
-				same, hand := true, false
-				for i := range el {
-					if el[len(el)-1-i] != ql[len(ql)-1-i] {
-						same = false
-					}
-					if eh[len(el)-1-i] || qh[len(ql)-1-i] {
-						hand = true
-					}
-				}
-				if same && hand {
-					return true
-				}
+// Two reference verdicts for one probe. byName: names are label lists, the spelling plays
+// no role (the property). byString: what keying the lists by spelling gives — the lower-cased,
+// fully qualified string and its suffixes after each label-separating dot, compared as strings
+// (the finding's prediction).
+func vC18RefByName(m, wild, w []string, q string) bool {
+	ql, _ := vC18Decode(q)
+	eq := func(e string, from int) bool { // entry e == the last len(ql)-from labels of q
+		el, _ := vC18Decode(e)
+		if len(el) != len(ql)-from {
+			return false
+		}
+		for i := range el {
+			if el[i] != ql[from+i] {
+				return false
+			}
+		}
+		return true
+	}
+	has := func(l []string, from int) bool {
+		for _, e := range l {
+			if eq(e, from) {
+				return true
+			}
+		}
+		return false
+	}
+	// the name itself and its proper ancestors below the root
+	for from := 0; from == 0 || from < len(ql); from++ {
+		if has(w, from) {
+			return false
+		}
+	}
+	if has(m, 0) {
+		return true
+	}
+	for from := 1; from < len(ql); from++ {
+		if has(m, from) {
+			return true
+		}
+		for _, e := range wild {
+			if e != "" && eq(e, from) {
+				return true
 			}
 		}
 	}
 	return false
+}
+
+func vC18RefByString(m, wild, w []string, q string) bool {
+	key := []byte(q)
+	for i := range key {
+		if key[i] >= 'A' && key[i] <= 'Z' {
+			key[i] += 32
+		}
+	}
+	bs := 0
+	for i := len(key) - 2; i >= 0 && key[i] == '\\'; i-- {
+		bs++
+	}
+	if len(key) == 0 || key[len(key)-1] != '.' || bs%2 == 1 {
+		key = append(key, '.')
+	}
+	k := string(key)
+	cands := []string{k}
+	for i := 0; i < len(k); i++ {
+		if k[i] == '\\' {
+			i++
+			continue
+		}
+		if k[i] == '.' && i+1 < len(k) {
+			cands = append(cands, k[i+1:])
+		}
+	}
+	in := func(l []string, x string) bool {
+		for _, e := range l {
+			if e == x {
+				return true
+			}
+		}
+		return false
+	}
+	for _, c := range cands {
+		if in(w, c) {
+			return false
+		}
+	}
+	if in(m, k) {
+		return true
+	}
+	for _, c := range cands[1:] {
+		if in(m, c) || in(wild, c) {
+			return true
+		}
+	}
+	return false
+}
+
+// The tolerated class, by what is observed: on some probe the two references disagree (the
+// verdict is a matter of spelling) and on EVERY probe of the case the list did what one of the
+// two says — what the finding predicts, or the right thing. Anything else fails strictly.
+func vC18SpellingClass(m, wild, w []string, probes []string, observed []bool) bool {
+	differ := false
+	for i, q := range probes {
+		a, b := vC18RefByName(m, wild, w, q), vC18RefByString(m, wild, w, q)
+		if a != b {
+			differ = true
+		}
+		if observed[i] != a && observed[i] != b {
+			return false
+		}
+	}
+	return differ
 }
 
 const vC18SpellingKey = "blocklist-entry-spelling"
@@ -764,45 +848,78 @@ func vC18Strs(x any) []string {
 	return nil
 }
 
-// the fkey of an Exists / Serve case, from its description
+// the fkey of an Exists / Serve / Reload case, from its description
 func vC18SpellingFkey(coq string, desc any) string {
 	d, ok := desc.(map[string]any)
 	if !ok {
 		return ""
 	}
 	var probes []string
+	var observed []bool
 	switch {
 	case strings.HasPrefix(coq, "CaseServe "):
-		if q, ok := d["qname"].(string); ok {
-			probes = append(probes, q)
+		q, ok := d["qname"].(string)
+		next, ok1 := d["next_calls"].(int)
+		writes, ok2 := d["writes"].(int)
+		if !ok || !ok1 || !ok2 {
+			return ""
+		}
+		switch {
+		case next == 0 && writes == 1:
+			probes, observed = append(probes, q), append(observed, true)
+		case next == 1 && writes == 0:
+			probes, observed = append(probes, q), append(observed, false)
+		default:
+			return ""
 		}
 	case strings.HasPrefix(coq, "CaseExists "):
-		if l, ok := d["exists"].([]any); ok {
-			for _, e := range l {
-				switch v := e.(type) {
-				case string: // a single (name, verdict) pair
-					probes = append(probes, v)
-				case []any:
-					if len(v) > 0 {
-						if q, ok := v[0].(string); ok {
-							probes = append(probes, q)
-						}
-					}
+		l, _ := d["exists"].([]any)
+		if len(l) == 2 {
+			if q, ok := l[0].(string); ok { // a single (name, verdict) pair
+				if got, ok := l[1].(bool); ok {
+					probes, observed = append(probes, q), append(observed, got)
+					l = nil
 				}
 			}
 		}
+		for _, e := range l {
+			v, ok := e.([]any)
+			if !ok || len(v) != 2 {
+				return ""
+			}
+			q, ok1 := v[0].(string)
+			got, ok2 := v[1].(bool)
+			if !ok1 || !ok2 {
+				return ""
+			}
+			probes, observed = append(probes, q), append(observed, got)
+		}
 	case strings.HasPrefix(coq, "CaseReload "):
-		// a configured whitelist entry spelled by hand: how the fresh list keys it is part of the finding
+		// a configured whitelist entry spelled by hand, and the fresh list keys it by another
+		// spelling than the one typed (what the proposed repair does): the model, which
+		// describes the code as it is, then differs on the strings — the names are the spec's business
+		hand := false
 		for _, e := range vC18Strs(d["whitelist"]) {
 			if vC18NonCanonical(e) {
-				return vC18SpellingKey
+				hand = true
+			}
+		}
+		if rw, ok := d["reloaded_w"]; hand && ok {
+			typed := map[string]bool{}
+			for _, e := range vC18Strs(d["whitelist"]) {
+				typed[dns.CanonicalName(e)] = true
+			}
+			for _, e := range vC18Strs(rw) {
+				if !typed[e] {
+					return vC18SpellingKey
+				}
 			}
 		}
 		return ""
 	default:
 		return ""
 	}
-	if vC18SpellingClass(vC18Strs(d["m"]), vC18Strs(d["wild"]), vC18Strs(d["w"]), probes) {
+	if len(probes) > 0 && vC18SpellingClass(vC18Strs(d["m"]), vC18Strs(d["wild"]), vC18Strs(d["w"]), probes, observed) {
 		return vC18SpellingKey
 	}
 	return ""
@@ -1221,7 +1338,7 @@ func vC18EmitReload(r *rand.Rand, out *vC18Out, k string, dir string, whitelist 
 	rm, rwild, rw := vC18Dump(nb)
 	out.emit(k, fmt.Sprintf("CaseReload %s [] [%s] %s %s %s %s %s", vC18List(whitelist), vC18Str(file), vC18List(memM), vC18List(memWild),
 		vC18List(rm), vC18List(rwild), vC18List(rw)),
-		map[string]any{"whitelist": whitelist, "file": file, "memory_m": memM, "memory_wild": memWild, "reloaded_m": rm, "reloaded_wild": rwild},
+		map[string]any{"whitelist": whitelist, "file": file, "memory_m": memM, "memory_wild": memWild, "reloaded_m": rm, "reloaded_wild": rwild, "reloaded_w": rw},
 		true, "", fkey)
 }
 
@@ -1368,8 +1485,28 @@ func vC18MutateLocked(b *BlockList, op vC18Op) (bool, blockSnapshot) {
 	return true, b.snapshotLocked()
 }
 
+// how many goroutines wait for the mutex (sync.Mutex keeps the count above the three flag
+// bits of its state word); by reflection, so that a different layout only costs the ability
+// to see it
+func vC18MutexWaiters(m *sync.Mutex) (int, bool) {
+	v := reflect.ValueOf(m).Elem()
+	f := v.FieldByName("state")
+	if !f.IsValid() {
+		if mu := v.FieldByName("mu"); mu.IsValid() && mu.Kind() == reflect.Struct {
+			f = mu.FieldByName("state")
+		}
+	}
+	if !f.IsValid() || f.Kind() != reflect.Int32 {
+		return 0, false
+	}
+	return int(f.Int() >> 3), true
+}
+
 // forced schedules: snapshots reach persist() in an arbitrary order, interleaved with later mutations
-func vC18CaseSched(t *testing.T, r *rand.Rand, out *vC18Out) {
+func vC18CaseSched(t *testing.T, r *rand.Rand, out *vC18Out) { vC18CaseSchedWith(t, r, out, false) }
+
+// forced: all mutations first, then every snapshot's persist() started behind the gate, newest first
+func vC18CaseSchedWith(t *testing.T, r *rand.Rand, out *vC18Out, forced bool) {
 	dir := vC18Dir(t)
 	cfg := vC18Cfg(r, dir)
 	pool := vC18KeyPool(r, "", false)
@@ -1382,7 +1519,7 @@ func vC18CaseSched(t *testing.T, r *rand.Rand, out *vC18Out) {
 	var desc []any
 	done := 0
 	for done < nmut || len(pending) > 0 {
-		if done < nmut && (len(pending) == 0 || r.Intn(2) == 0) {
+		if done < nmut && (forced || len(pending) == 0 || r.Intn(2) == 0) {
 			op := vC18RandOp(r, pool)
 			ok, snap := vC18MutateLocked(b, op)
 			done++
@@ -1391,6 +1528,44 @@ func vC18CaseSched(t *testing.T, r *rand.Rand, out *vC18Out) {
 			}
 			parts = append(parts, fmt.Sprintf("SMut (%s) %s %s", op.coq(), vC18List(snap.exact), vC18List(snap.wild)))
 			desc = append(desc, []any{"mutate", op.Kind, op.Keys, "snapshot", ok, snap.version})
+			continue
+		}
+		if len(pending) >= 2 && (forced || r.Intn(2) == 0) {
+			// several persist() calls in flight at once: the driver holds saveMu, starts them one
+			// after the other in a chosen order (newest first as often as not) — each has passed
+			// whatever persist() does before taking saveMu and waits at the lock — then lets go.
+			// sync.Mutex hands over in arrival order, so that is the order they run in (and if it
+			// is not, every order must give the same file).
+			k := 2 + r.Intn(len(pending)-1)
+			newestFirst := r.Intn(2) == 0
+			if forced {
+				k, newestFirst = len(pending), true
+			}
+			b.saveMu.Lock()
+			w0, canSee := vC18MutexWaiters(&b.saveMu)
+			var wg sync.WaitGroup
+			for j := 0; j < k; j++ {
+				i := r.Intn(len(pending))
+				if newestFirst {
+					i = len(pending) - 1
+				}
+				snap := pending[i]
+				pending = append(pending[:i:i], pending[i+1:]...)
+				wg.Add(1)
+				go func() { defer wg.Done(); b.persist(snap) }()
+				// until it is queued at the lock (or, with a persist() that does not get that far, a moment)
+				for spins := 0; spins < 4000; spins++ {
+					if n, ok := vC18MutexWaiters(&b.saveMu); canSee && ok && n >= w0+j+1 {
+						break
+					}
+					time.Sleep(50 * time.Microsecond)
+				}
+				parts = append(parts, fmt.Sprintf("SPersist %d", i))
+				desc = append(desc, []any{"persist queued behind the gate", i, "version", snap.version})
+			}
+			b.saveMu.Unlock()
+			wg.Wait()
+			desc = append(desc, "gate opened, queued persists ran")
 			continue
 		}
 		i := r.Intn(len(pending))
@@ -1405,7 +1580,11 @@ func vC18CaseSched(t *testing.T, r *rand.Rand, out *vC18Out) {
 	}
 	m1, wild1, _ := vC18Dump(b)
 	present, file := vC18ReadLocal(dir)
-	out.emit("sched", fmt.Sprintf("CaseSched %s %s %s [%s] %s %s %s", vC18List(m0), vC18List(wild0), vC18List(w), strings.Join(parts, "; "),
+	kind := "sched"
+	if forced {
+		kind = "sched-fixed"
+	}
+	out.emit(kind, fmt.Sprintf("CaseSched %s %s %s [%s] %s %s %s", vC18List(m0), vC18List(wild0), vC18List(w), strings.Join(parts, "; "),
 		vC18List(m1), vC18List(wild1), vC18OptStr(present, file)),
 		map[string]any{"w": w, "steps": desc, "m1": m1, "wild1": wild1, "file_present": present, "file": file}, present, "", "")
 }
@@ -2022,7 +2201,7 @@ func vC18RunScript(sc *vC18Script, dir, refDir string, kprefix string) (recs []v
 			}
 			recs = append(recs, vC18Rec{kprefix + "reload", fmt.Sprintf("CaseReload %s [] [%s] %s %s %s %s %s", vC18List(sc.Whitelist), vC18Str(file), vC18List(m), vC18List(wild),
 				vC18List(rm), vC18List(rwild), vC18List(rw)),
-				map[string]any{"script": sc.Name, "file": file, "memory_m": m, "memory_wild": wild, "reloaded_m": rm, "reloaded_wild": rwild}, true, ""})
+				map[string]any{"script": sc.Name, "whitelist": sc.Whitelist, "file": file, "memory_m": m, "memory_wild": wild, "reloaded_m": rm, "reloaded_wild": rwild, "reloaded_w": rw}, true, ""})
 		default:
 			return nil, "script " + sc.Name + ": unknown step " + st.Do
 		}
@@ -2582,6 +2761,10 @@ func TestVerifC18(t *testing.T) {
 	vC18RunScripts(t, out, vC18LoadCorpus(t), "corpus-")
 	// the fixed alphabet sweep (its own generator: the random stream below does not depend on it)
 	vC18CaseAlphabet(t, rand.New(rand.NewSource(18)), out)
+	// and three fixed schedules with every persist() in flight at once, newest first
+	for i, fr := 0, rand.New(rand.NewSource(1805)); i < 3; i++ {
+		vC18CaseSchedWith(t, fr, out, true)
+	}
 	// random histories with refreshes that bring remote lists (side by side, about two seconds)
 	nrh := 8
 	if os.Getenv("VERIF_TIER") == "thorough" {
